@@ -27,7 +27,7 @@ int events_network_verif_check(char *, size_t);
 void events_network_verif_state(size_t *, size_t *);
 
 #define MAXREG 4096
-#define NFD 12
+#define NFD 40		/* most programs use 12, one in eight all 40 */
 #define MAXACT 4
 
 enum { K_IMM = 0, K_SOCK = 1, K_TIMER = 2 };
@@ -59,6 +59,7 @@ static struct reg regs[MAXREG];
 static int nregs;
 static struct vh_rng R;
 static int fdpool[NFD];
+static int nfd = 12;		/* descriptors of the current program */
 static int draining;
 static int spin_done;
 static uint64_t sig;
@@ -68,7 +69,7 @@ static int lastpoll_ready[NFD];	/* revents of the last poll per pool index */
 /* statistics */
 static uint64_t n_cb[3], n_reg[3], n_cancel[3], n_run, n_poll, n_steal,
     n_eexist, n_enoent, n_intr, n_nonzero, n_inside_reg, n_inside_cancel,
-    n_hup_both, n_scan_ge_nfds, n_reset, n_burst;
+    n_hup_both, n_scan_ge_nfds, n_reset, n_burst, n_poll_gt16, n_poll_gt32;
 
 static void
 lg(const char * fmt, ...)
@@ -85,7 +86,7 @@ poolidx(int fd)
 {
 	int i;
 
-	for (i = 0; i < NFD; i++)
+	for (i = 0; i < nfd; i++)
 		if (fdpool[i] == fd)
 			return (i);
 	return (-1);
@@ -123,7 +124,11 @@ on_poll(struct pollfd * fds, nfds_t n, int timeout, int rc, uint64_t t0,
 	nfds_t i;
 
 	n_poll++;
-	for (i = 0; i < NFD; i++)
+	if (n > 16)
+		n_poll_gt16++;
+	if (n > 32)
+		n_poll_gt32++;
+	for (i = 0; i < (nfds_t)nfd; i++)
 		lastpoll_ready[i] = 0;
 	lg("PL %d %d %llu %llu %u", timeout, rc, (unsigned long long)t0,
 	    (unsigned long long)t1, (unsigned)n);
@@ -348,7 +353,7 @@ act(int a, struct reg * self)
 		    (int)vh_below(&R, 4));
 		break;
 	case A_REG_S:
-		do_reg_s(fdpool[vh_below(&R, NFD)], (int)vh_below(&R, 2));
+		do_reg_s(fdpool[vh_below(&R, (uint64_t)nfd)], (int)vh_below(&R, 2));
 		break;
 	case A_REG_T:
 		do_reg_t(draw_timeout());
@@ -377,13 +382,13 @@ act(int a, struct reg * self)
 		break;
 	}
 	case A_FLAG:
-		fd = fdpool[vh_below(&R, NFD)];
+		fd = fdpool[vh_below(&R, (uint64_t)nfd)];
 		i = (int)vh_below(&R, 8);
 		set_flag(fd, i < 3 ? 0 : i < 6 ? 1 : i == 6 ? 2 : 3,
 		    vh_chance(&R, 2, 3));
 		break;
 	case A_SCHED:
-		fd = fdpool[vh_below(&R, NFD)];
+		fd = fdpool[vh_below(&R, (uint64_t)nfd)];
 		i = (int)vh_below(&R, 8);
 		simk_schedule_flag(fd, i < 3 ? 0 : i < 6 ? 1 : i == 6 ? 2 : 3,
 		    vh_chance(&R, 3, 4), simk_now_us + vh_below(&R, 30000));
@@ -411,8 +416,8 @@ act(int a, struct reg * self)
 		 * which has not been dispatched yet, and register a new one in
 		 * its place: the new one must wait for the next poll.
 		 */
-		for (i = 0; i < NFD; i++) {
-			int k = (int)((i + vh_below(&R, NFD)) % NFD);
+		for (i = 0; i < nfd; i++) {
+			int k = (int)((i + vh_below(&R, (uint64_t)nfd)) % nfd);
 
 			if (!lastpoll_ready[k])
 				continue;
@@ -436,7 +441,7 @@ act(int a, struct reg * self)
 	case A_CANCEL_ABSENT: {
 		int rc, e;
 
-		fd = fdpool[vh_below(&R, NFD)];
+		fd = fdpool[vh_below(&R, (uint64_t)nfd)];
 		op = (int)vh_below(&R, 2);
 		if (find_sock(fd, op) != NULL)
 			break;
@@ -628,7 +633,14 @@ program(uint64_t seed, uint64_t idx)
 	nregs = 0;
 	draining = 0;
 	sig = 0;
-	for (i = 0; i < NFD; i++) {
+	/*
+	 * One program in eight uses 40 descriptors: with both directions and
+	 * the pre-biased registrations the loop's pollfd array (16 slots at
+	 * first) has to grow while it holds live registrations - once per
+	 * process, which is why each shard is split over several processes.
+	 */
+	nfd = vh_chance(&R, 1, 8) ? NFD : 12;
+	for (i = 0; i < nfd; i++) {
 		fdpool[i] = simk_newfd();
 		lastpoll_ready[i] = 0;
 	}
@@ -670,7 +682,7 @@ program(uint64_t seed, uint64_t idx)
 	simk_advance(100000000ULL);
 	lg("AD 100000000\n");
 	simk_apply_due();	/* flush every scheduled flip first */
-	for (i = 0; i < NFD; i++) {
+	for (i = 0; i < nfd; i++) {
 		set_flag(fdpool[i], 0, 1);
 		set_flag(fdpool[i], 1, 1);
 	}
@@ -689,7 +701,7 @@ program(uint64_t seed, uint64_t idx)
 	lg("RE %d 0\n", events_run());
 	lg("END\n");
 	printf("SIG %016llx 1\n", (unsigned long long)sig);
-	for (i = 0; i < NFD; i++)
+	for (i = 0; i < nfd; i++)
 		simk_closefd(fdpool[i]);
 }
 
@@ -728,6 +740,8 @@ main(int argc, char ** argv)
 	    (unsigned long long)n_inside_reg, (unsigned long long)n_inside_cancel,
 	    (unsigned long long)n_hup_both, (unsigned long long)n_scan_ge_nfds,
 	    (unsigned long long)n_reset, (unsigned long long)simk_npoll_eintr);
-	printf("STAT timer_bursts %llu\n", (unsigned long long)n_burst);
+	printf("STAT timer_bursts %llu\nSTAT polls_over_16_descriptors %llu\n"
+	    "STAT polls_over_32_descriptors %llu\n", (unsigned long long)n_burst,
+	    (unsigned long long)n_poll_gt16, (unsigned long long)n_poll_gt32);
 	return (0);
 }
